@@ -299,6 +299,14 @@ def shift(name, w, x, n):
     return ("sh", name, w, x, a)
 
 
+def bnot(w, x):
+    if is_k(x):
+        return K(w, ~x[2])
+    if isinstance(x, tuple) and x and x[0] == "bnot":
+        return x[2]
+    return ("bnot", w, x)
+
+
 def neg(w, x):
     if is_k(x):
         return K(w, -x[2])
